@@ -17,7 +17,7 @@ VERIF = os.path.dirname(os.path.dirname(os.path.abspath(__file__)))
 BUILD = os.path.join(VERIF, 'build')
 BGX = os.path.join(BUILD, 'bgx')
 BGX_SRC = os.path.join(VERIF, 'bgx', 'bgx.cc')
-CACHE = os.path.join(VERIF, '.cache')
+CACHE = os.environ.get('BGCHECK_CACHE') or os.path.join(VERIF, '.cache')
 FIXTURES = os.path.join(VERIF, 'fixtures')
 REPO = os.environ.get('BGCHECK_REPO', '/repo')
 INCLUDE = os.path.join(REPO, 'include')
@@ -72,6 +72,7 @@ def cache_key(stds):
     if os.path.isdir(FIXTURES):
         h.update(tree_hash(FIXTURES).encode())
     h.update(ENGINE_VERSION.encode())
+    h.update(INCLUDE.encode())
     h.update(','.join(stds).encode())
     return h.hexdigest()[:24]
 
@@ -193,7 +194,8 @@ def load_program(stds=('gnu++17',), verbose=False):
     if not os.path.exists(marker):
         # prune old cache entries (keep disk use bounded)
         if os.path.isdir(CACHE):
-            for d in os.listdir(CACHE):
+            olds = sorted((os.path.getmtime(os.path.join(CACHE, d)), d) for d in os.listdir(CACHE))
+            for _, d in olds[:-3]:
                 shutil.rmtree(os.path.join(CACHE, d), ignore_errors=True)
         os.makedirs(cdir, exist_ok=True)
         jobs = []
